@@ -739,7 +739,13 @@ type UnaryArithmetic struct {
 }
 
 func (e UnaryArithmetic) String() string {
-	return e.Operator.String() + e.Operand.String()
+	operator := e.Operator.String()
+	operand := e.Operand.String()
+	if strings.HasPrefix(operand, operator) {
+		// "- -1" must not be printed as "--1", which is a line comment
+		return operator + " " + operand
+	}
+	return operator + operand
 }
 
 type Logic struct {
